@@ -189,7 +189,7 @@ CLAIMED = {
              'the discipline - guarded access hooks + the library\'s custom-mutex customisation point give a per-site held/unheld table, 5 '
              'scenarios x seeds x 2-8 threads run under ThreadSanitizer, and the operations of a concurrent run are replayed on the sequential '
              'World model in critical-section order and must give the same handlers, counts, reports and query answers. Found and repaired: '
-             'F9, F10, F11 (three unsynchronised accesses). Static complement (third session): tools/lockscope.py regenerates from the current source, for every function that takes the global lock, the list of its statements, declarations, conditions and return expressions with whether each stands lexically inside the lock scope (Gen/LockScopes.lean); proved over it by decide: everything outside a lock scope is the lock declaration itself, the RT_TIMES argument check, or the forbidden-call prologue of run_actions, which runs under the lock of its only caller mock_func (lexical_lock_coverage, run_actions_called_under_lock); the set of lock-taking functions is pinned (lock_takers: a function that loses its lock drops out of the table); the mutating steps are inside a lock scope by name (critical_steps_locked). Not visible to the lexical scan: implicit member/base destructors at scope end - those are TSan\'s. Also over regenerated tables: no_early_unlock (no lock-taking function unlocks / releases / moves the lock before the end of its scope) and lock_free_reads_atomic (the state queries that do not take the lock read only data members declared atomic). Scenario s9: a tracer constructed before the workers start receives one record per accepted call made on any thread.',
+             'F9, F10, F11 (three unsynchronised accesses). Static complement (third session): tools/lockscope.py regenerates from the current source, for every function that takes the global lock, the list of its statements, declarations, conditions and return expressions with whether each stands lexically inside the lock scope (Gen/LockScopes.lean); proved over it by decide: everything outside a lock scope is the lock declaration itself, the RT_TIMES argument check, or the forbidden-call prologue of run_actions, which runs under the lock of its only caller mock_func (lexical_lock_coverage, run_actions_called_under_lock); the set of lock-taking functions is pinned (lock_takers: a function that loses its lock drops out of the table); the mutating steps are inside a lock scope by name (critical_steps_locked). Not visible to the lexical scan: implicit member/base destructors at scope end - those are TSan\'s. Also over regenerated tables: no_early_unlock (no lock-taking function unlocks / releases / moves the lock before the end of its scope) and lock_free_reads_atomic (the state queries that do not take the lock read only data members declared atomic). Scenario s9: a tracer constructed before the workers start receives one record per accepted call made on any thread. one_global_mutex: every definition of get_lock() hands out a lock on one function-local static mutex (lockSources table). Scenario s10: after each violation path (unexpected destruction, unfulfilled release, no match, forbidden call, mock destroyed first, out-of-sequence call, requirement released early) in one thread, an operation in another thread completes under a 5 s watchdog - the lock was given back.',
         ref='DESIGN.md §4 C12', engine='lean-conc',
         note='Trusted: Lean kernel; axioms propext/Classical.choice/Quot.sound; ThreadSanitizer; the instrumented mutex; that the hooked sites '
              'are all shared accesses. Not covered: schedules not explored, deadlocks against user locks, user-supplied custom mutexes, memory-model '
